@@ -15,9 +15,11 @@ import (
 
 	"github.com/vektah/gqlparser/v2"
 	"github.com/vektah/gqlparser/v2/ast"
+	"github.com/vektah/gqlparser/v2/formatter"
 	"github.com/vektah/gqlparser/v2/gqlerror"
 	"github.com/vektah/gqlparser/v2/parser"
 	"github.com/vektah/gqlparser/v2/validator"
+	"github.com/vektah/gqlparser/v2/validator/rules"
 	"github.com/vektah/gqlparser/v2/verifsim"
 	"github.com/vektah/gqlparser/v2/zz_verif/gen"
 )
@@ -35,10 +37,14 @@ type OrderRuleJ struct {
 }
 
 type Op struct {
-	Kind   string       `json:"op"` // load | fresh | first | again | query
+	Kind   string       `json:"op"` // load | fresh | first | again | query | noise
 	S      int          `json:"s"`
 	D      int          `json:"d"`
 	Orders []OrderRuleJ `json:"orders,omitempty"`
+	// noise: a call through some OTHER entry point of the library. Its result
+	// is not an observation; it is history that must not change any later one.
+	Noise string `json:"noise,omitempty"` // limit-query | limit-schema | fmt-schema | fmt-doc | vars | argmaps | rules | json
+	Arg   uint64 `json:"arg,omitempty"`
 }
 
 type NamedText struct {
@@ -47,6 +53,13 @@ type NamedText struct {
 }
 
 type Session struct {
+	// ReuseSources: load/fresh/first hand the library the SAME *ast.Source
+	// object for a text every time (a caller may keep its Source values);
+	// otherwise a new one per call. NamedDocs: query documents are parsed from
+	// named sources.
+	ReuseSources bool `json:"reuse_sources,omitempty"`
+	NamedDocs    bool `json:"named_docs,omitempty"`
+
 	Seed      uint64      `json:"seed"`
 	Source    string      `json:"source"`
 	Schemas   []NamedText `json:"schemas"`
@@ -63,6 +76,9 @@ func (o Op) String() string {
 	if o.Kind == "load" {
 		return fmt.Sprintf("load(%d)", o.S)
 	}
+	if o.Kind == "noise" {
+		return fmt.Sprintf("noise:%s(%d,%d)", o.Noise, o.S, o.D)
+	}
 	return fmt.Sprintf("%s(%d,%d)", o.Kind, o.S, o.D)
 }
 
@@ -78,6 +94,43 @@ type execState struct {
 	sess    *Session
 	schemas []*ast.Schema
 	docs    map[[2]int]*ast.QueryDocument
+	ssrc    map[int]*ast.Source // reused schema sources
+	dsrc    map[int]*ast.Source // reused document sources
+}
+
+func (x *execState) schemaSource(i int) *ast.Source {
+	s := x.sess
+	if s.ReuseSources {
+		if src := x.ssrc[i]; src != nil {
+			return src
+		}
+	}
+	src := &ast.Source{Name: s.Schemas[i].Name, Input: s.Schemas[i].Text}
+	if s.ReuseSources {
+		x.ssrc[i] = src
+	}
+	return src
+}
+
+func docName(s *Session, j int) string {
+	if s.NamedDocs {
+		return fmt.Sprintf("doc%d.graphql", j)
+	}
+	return ""
+}
+
+func (x *execState) docSource(j int) *ast.Source {
+	s := x.sess
+	if s.ReuseSources {
+		if src := x.dsrc[j]; src != nil {
+			return src
+		}
+	}
+	src := &ast.Source{Name: docName(s, j), Input: s.Docs[j]}
+	if s.ReuseSources {
+		x.dsrc[j] = src
+	}
+	return src
 }
 
 type opResult struct {
@@ -122,7 +175,11 @@ func (x *execState) orderCfg(i int, capture bool) verifsim.OrderCfg {
 }
 
 func validateText(schema *ast.Schema, text string) (*ast.QueryDocument, gqlerror.List) {
-	doc, err := parser.ParseQuery(&ast.Source{Input: text})
+	return validateSource(schema, &ast.Source{Input: text})
+}
+
+func validateSource(schema *ast.Schema, src *ast.Source) (*ast.QueryDocument, gqlerror.List) {
+	doc, err := parser.ParseQuery(src)
 	if err != nil {
 		if ge, ok := err.(*gqlerror.Error); ok {
 			return nil, gqlerror.List{ge}
@@ -141,8 +198,13 @@ func (x *execState) runOp(i int, capture bool) (res opResult) {
 	}
 	lkey := fmt.Sprintf("L|%d", op.S)
 	vkey := fmt.Sprintf("V|%d|%d", op.S, op.D)
-	src := func() *ast.Source { return &ast.Source{Name: s.Schemas[op.S].Name, Input: s.Schemas[op.S].Text} }
+	src := func() *ast.Source { return x.schemaSource(op.S) }
 	switch op.Kind {
+	case "noise":
+		if op.Noise != "limit-query" && op.Noise != "limit-schema" && x.schemas[op.S] == nil {
+			res.skipped = true
+			return
+		}
 	case "first", "query":
 		if x.schemas[op.S] == nil {
 			res.skipped = true
@@ -178,11 +240,13 @@ func (x *execState) runOp(i int, capture bool) (res opResult) {
 			sc, err := gqlparser.LoadSchema(src())
 			res.obs = append(res.obs, Obs{lkey, gen.RenderError(err), i})
 			if err == nil {
-				_, errs := validateText(sc, s.Docs[op.D])
+				_, errs := validateSource(sc, x.docSource(op.D))
 				res.obs = append(res.obs, Obs{vkey, gen.RenderErrors(errs), i})
 			}
+		case "noise":
+			x.noise(op)
 		case "first":
-			doc, errs := validateText(x.schemas[op.S], s.Docs[op.D])
+			doc, errs := validateSource(x.schemas[op.S], x.docSource(op.D))
 			if doc != nil {
 				x.docs[[2]int{op.S, op.D}] = doc
 			}
@@ -192,7 +256,11 @@ func (x *execState) runOp(i int, capture bool) (res opResult) {
 			res.obs = append(res.obs, Obs{vkey, gen.RenderErrors(errs), i})
 		case "query":
 			_, errs := gqlparser.LoadQuery(x.schemas[op.S], s.Docs[op.D])
-			res.obs = append(res.obs, Obs{vkey, gen.RenderErrors(errs), i})
+			k := vkey
+			if s.NamedDocs {
+				k = fmt.Sprintf("Q|%d|%d", op.S, op.D) // LoadQuery parses from an unnamed source: errors carry no file name
+			}
+			res.obs = append(res.obs, Obs{k, gen.RenderErrors(errs), i})
 		default:
 			res.skipped = true
 		}
@@ -222,6 +290,66 @@ func protect(f func()) (p string) {
 	return ""
 }
 
+// noise performs a call through another entry point of the library. Nothing
+// it returns is an observation (those entry points belong to other
+// properties); a panic is swallowed.
+func (x *execState) noise(op Op) {
+	s := x.sess
+	r := gen.NewRng(op.Arg)
+	protect(func() {
+		switch op.Noise {
+		case "limit-query":
+			parser.ParseQueryWithTokenLimit(&ast.Source{Name: docName(s, op.D), Input: s.Docs[op.D]}, r.Range(1, 80))
+		case "limit-schema":
+			if r.Chance(1, 2) {
+				parser.ParseSchemaWithLimit(&ast.Source{Name: s.Schemas[op.S].Name, Input: s.Schemas[op.S].Text}, r.Range(1, 200))
+			} else {
+				parser.ParseSchemasWithLimit(r.Range(1, 200), validator.Prelude, &ast.Source{Name: s.Schemas[op.S].Name, Input: s.Schemas[op.S].Text})
+			}
+		case "fmt-schema":
+			var b strings.Builder
+			formatter.NewFormatter(&b, formatter.WithIndent(gen.Pick(r, []string{"\t", "  ", "    "}))).FormatSchema(x.schemas[op.S])
+		case "fmt-doc":
+			if d := x.docs[[2]int{op.S, op.D}]; d != nil {
+				var b strings.Builder
+				formatter.NewFormatter(&b).FormatQueryDocument(d)
+			}
+		case "vars", "argmaps":
+			// on a document of its own (a kept document is validated again later)
+			d, errs := validateSource(x.schemas[op.S], &ast.Source{Input: s.Docs[op.D]})
+			if d == nil || len(errs) > 0 {
+				return
+			}
+			vars := gen.GenVars(r, x.schemas[op.S], d)
+			if op.Noise == "vars" {
+				for _, o := range d.Operations {
+					validator.VariableValues(x.schemas[op.S], o, vars)
+				}
+			} else {
+				var b strings.Builder
+				gen.RenderArgMaps(&b, d, vars)
+			}
+		case "rules":
+			d, err := parser.ParseQuery(&ast.Source{Input: s.Docs[op.D]})
+			if err != nil {
+				return
+			}
+			rl := []validator.Rule{rules.KnownArgumentNamesRuleWithoutSuggestions, rules.FieldsOnCorrectTypeRuleWithoutSuggestions, rules.KnownTypeNamesRuleWithoutSuggestions, rules.ValuesOfCorrectTypeRuleWithoutSuggestions, rules.NoUnusedVariablesRule, rules.OverlappingFieldsCanBeMergedRule}
+			n := r.Range(1, len(rl))
+			validator.Validate(x.schemas[op.S], d, rl[:n]...)
+		case "json":
+			if d := x.docs[[2]int{op.S, op.D}]; d != nil {
+				if b, err := json.Marshal(d); err == nil {
+					var back ast.QueryDocument
+					json.Unmarshal(b, &back)
+				}
+			}
+		}
+	})
+}
+
+var noiseKinds = []string{"limit-query", "limit-schema", "fmt-schema", "fmt-doc", "vars", "argmaps", "rules", "json"}
+
 type sessionRun struct {
 	obs        []Obs
 	visits     [][]verifsim.Visit // per op
@@ -230,7 +358,7 @@ type sessionRun struct {
 }
 
 func runSession(s *Session, capture bool) sessionRun {
-	x := &execState{sess: s, schemas: make([]*ast.Schema, len(s.Schemas)), docs: map[[2]int]*ast.QueryDocument{}}
+	x := &execState{sess: s, schemas: make([]*ast.Schema, len(s.Schemas)), docs: map[[2]int]*ast.QueryDocument{}, ssrc: map[int]*ast.Source{}, dsrc: map[int]*ast.Source{}}
 	var r sessionRun
 	r.visits = make([][]verifsim.Visit, len(s.Ops))
 	for i := range s.Ops {
@@ -321,16 +449,7 @@ func checkObs(s *Session, obs []Obs) *Witness {
 		op int
 	}
 	dict := map[string]first{}
-	textKey := func(k string) string {
-		// identical texts in different pool slots are the same key
-		var si, di int
-		if strings.HasPrefix(k, "L|") {
-			fmt.Sscanf(k, "L|%d", &si)
-			return "L\x00" + s.Schemas[si].Name + "\x00" + s.Schemas[si].Text
-		}
-		fmt.Sscanf(k, "V|%d|%d", &si, &di)
-		return "V\x00" + s.Schemas[si].Name + "\x00" + s.Schemas[si].Text + "\x00" + s.Docs[di]
-	}
+	textKey := func(k string) string { return sessionTextKey(s, k) }
 	for _, o := range obs {
 		tk := textKey(o.Key)
 		f, ok := dict[tk]
@@ -385,6 +504,12 @@ func genSession(seed uint64, source string) *Session {
 	r := gen.NewRng(seed)
 	s := &Session{Seed: seed, Source: source}
 	buildPools(r.Fork(1), s)
+	if r.Chance(1, 5) {
+		// in-memory sources often have no name
+		for i := range s.Schemas {
+			s.Schemas[i].Name = ""
+		}
+	}
 	// order mix
 	m := mixes[r.Weighted([]int{1, 2, 2, 3, 4, 4, 3})]
 	s.Mix = m.name
@@ -407,10 +532,21 @@ func genSession(seed uint64, source string) *Session {
 			s.Ops = append(s.Ops, Op{Kind: "load", S: i})
 		}
 	}
-	kinds := []string{"load", "fresh", "first", "again", "query"}
+	s.ReuseSources = r.Chance(1, 3)
+	s.NamedDocs = r.Chance(1, 4)
+	noisy := r.Chance(1, 2) // half of the sessions also go through other entry points
+	kinds := []string{"load", "fresh", "first", "again", "query", "noise"}
 	for len(s.Ops) < n {
-		k := kinds[r.Weighted([]int{1, 3, 4, 4, 3})]
+		w := []int{1, 3, 4, 4, 3, 0}
+		if noisy {
+			w[5] = 4
+		}
+		k := kinds[r.Weighted(w)]
 		op := Op{Kind: k, S: r.Intn(ns)}
+		if k == "noise" {
+			op.Noise = gen.Pick(r, noiseKinds)
+			op.Arg = r.U64()
+		}
 		if k != "load" {
 			if nd == 0 {
 				continue
@@ -702,15 +838,13 @@ func c10Main(args []string) {
 		} else {
 			// cross-session oracle: same texts seen in an earlier session
 			for _, o := range r.obs {
-				var tk uint64
 				var si, di int
 				if strings.HasPrefix(o.Key, "L|") {
 					fmt.Sscanf(o.Key, "L|%d", &si)
-					tk = hashStr("L\x00" + s.Schemas[si].Name + "\x00" + s.Schemas[si].Text)
 				} else {
-					fmt.Sscanf(o.Key, "V|%d|%d", &si, &di)
-					tk = hashStr("V\x00" + s.Schemas[si].Name + "\x00" + s.Schemas[si].Text + "\x00" + s.Docs[di])
+					fmt.Sscanf(o.Key[1:], "|%d|%d", &si, &di)
 				}
+				tk := hashStr(sessionTextKey(s, o.Key))
 				h := hashStr(o.Rendering)
 				if *canonical {
 					st.CanonDigest[fmt.Sprintf("%016x", tk)] = h
@@ -721,6 +855,9 @@ func c10Main(args []string) {
 							k.Kind = "L"
 						} else {
 							k.Doc = s.Docs[di]
+							if strings.HasPrefix(o.Key, "V|") {
+								k.DocName = docName(s, di)
+							}
 						}
 						isoKeys = append(isoKeys, k)
 					}
@@ -796,6 +933,7 @@ type isoKey struct {
 	SchemaName string `json:"schema_name"`
 	Schema     string `json:"schema"`
 	Doc        string `json:"doc,omitempty"`
+	DocName    string `json:"doc_name,omitempty"`
 	Hash       uint64 `json:"hash"`
 	Rendering  string `json:"rendering"`
 	Session    uint64 `json:"session"`
@@ -844,10 +982,17 @@ func evalIsolated(k *isoKey) (res isoResult) {
 			res.B = res.A
 			return
 		}
-		_, errs := validateText(sc, k.Doc)
+		_, errs := validateSource(sc, &ast.Source{Name: k.DocName, Input: k.Doc})
 		res.A = gen.RenderErrors(errs)
-		_, errs2 := gqlparser.LoadQuery(sc, k.Doc)
-		res.B = gen.RenderErrors(errs2)
+		if k.DocName == "" {
+			_, errs2 := gqlparser.LoadQuery(sc, k.Doc)
+			res.B = gen.RenderErrors(errs2)
+		} else {
+			// LoadQuery parses from an unnamed source (no file name in its
+			// errors): a second parse + validation on the same schema object
+			_, errs2 := validateSource(sc, &ast.Source{Name: k.DocName, Input: k.Doc})
+			res.B = gen.RenderErrors(errs2)
+		}
 	})
 	if p != "" {
 		if res.A == "" {
@@ -1359,16 +1504,7 @@ func c10DigestMain(args []string) {
 				continue
 			}
 			for _, o := range r.obs {
-				var si, di int
-				var tk string
-				if strings.HasPrefix(o.Key, "L|") {
-					fmt.Sscanf(o.Key, "L|%d", &si)
-					tk = "L\x00" + s.Schemas[si].Name + "\x00" + s.Schemas[si].Text
-				} else {
-					fmt.Sscanf(o.Key, "V|%d|%d", &si, &di)
-					tk = "V\x00" + s.Schemas[si].Name + "\x00" + s.Schemas[si].Text + "\x00" + s.Docs[di]
-				}
-				k := fmt.Sprintf("%016x", hashStr(tk))
+				k := fmt.Sprintf("%016x", hashStr(sessionTextKey(s, o.Key)))
 				e := res[k]
 				if e == nil {
 					e = &entry{Session: sseed, Source: src, Key: o.Key}
